@@ -161,3 +161,68 @@ package htlcswitch
 //@   site mapupdate circuitKeySet: assert arg(key).HtlcID == inKey.HtlcID && arg(key).ChanID.BlockHeight == inKey.ChanID.BlockHeight &&
 //@        arg(key).ChanID.TxIndex == inKey.ChanID.TxIndex && arg(key).ChanID.TxPosition == inKey.ChanID.TxPosition
 //@   site mapupdate keystoneKeySet nth 1: assert ret(CheckResolutionMsg) != nil
+//@
+//@ func (cm *circuitMap) TrimOpenCircuits
+//@   props C07
+//@   loop * havoc
+//@   loop 0 step i == wrap(prev(i) + 1, 64) && !has(cm.opened, outKey) && prevheap(has(cm.opened, outKey)) &&
+//@        circuit == prevheap(cm.opened[outKey]) && circuit.Outgoing == nil && len(trimmedOutKeys) == prev(len(trimmedOutKeys)) + 1 &&
+//@        outKey.HtlcID == prev(i) && outKey.ChanID.BlockHeight == chanID.BlockHeight && outKey.ChanID.TxIndex == chanID.TxIndex &&
+//@        outKey.ChanID.TxPosition == chanID.TxPosition
+//@
+//@ func (cm *circuitMap) trimAllOpenCircuits
+//@   props C07
+//@   loop * havoc
+//@   site call TrimOpenCircuits: assert !activeChannel.IsPending && arg(2) == retn(NextLocalHtlcIndex, 0) &&
+//@        retn(NextLocalHtlcIndex, 1) == nil && arg(1).BlockHeight == ret(ShortChanID).BlockHeight &&
+//@        arg(1).TxIndex == ret(ShortChanID).TxIndex && arg(1).TxPosition == ret(ShortChanID).TxPosition
+//@   site call NextLocalHtlcIndex: assert arg(0) == activeChannel
+//@
+//@ func (cm *circuitMap) OpenCircuits
+//@   props C07
+//@   requires cm != nil
+//@   loop * havoc
+//@   loop 0 step !has(cm.opened, ks.OutKey) && has(cm.pending, ks.InKey) && len(openedCircuits) == prev(len(openedCircuits)) + 1
+//@   loop 1 step has(cm.opened, ks.OutKey) && cm.opened[ks.OutKey] == circuit
+//@   site store PaymentCircuit.Outgoing: assert ret(Update) == nil
+//@   ensures result == nil && len(keystones) > 0 ==> ret(Update) == nil
+//@
+//@ func (cm *circuitMap) restoreMemState$1$1
+//@   props C07
+//@   site mapupdate pending: assert retn(decodeCircuit, 1) == nil && arg(val) == retn(decodeCircuit, 0) && arg(val).LoadedFromDisk &&
+//@        arg(key).HtlcID == arg(val).Incoming.HtlcID && arg(key).ChanID.BlockHeight == arg(val).Incoming.ChanID.BlockHeight &&
+//@        arg(key).ChanID.TxIndex == arg(val).Incoming.ChanID.TxIndex && arg(key).ChanID.TxPosition == arg(val).Incoming.ChanID.TxPosition
+//@
+//@ func (cm *circuitMap) restoreMemState$1$2
+//@   props C07
+//@   site mapupdate opened: assert has(pending, inKey) && arg(val) == pending[inKey] && arg(val).Outgoing == outKey &&
+//@        arg(key).HtlcID == outKey.HtlcID && arg(key).ChanID.BlockHeight == outKey.ChanID.BlockHeight &&
+//@        arg(key).ChanID.TxIndex == outKey.ChanID.TxIndex && arg(key).ChanID.TxPosition == outKey.ChanID.TxPosition
+//@   site call append: assert !has(pending, inKey)
+//@
+//@ func (cm *circuitMap) DeleteCircuits
+//@   props C07
+//@   requires cm != nil
+//@   loop * havoc
+//@   let wasPending = prevheap(has(cm.pending, inKey))
+//@   loop 0 step wasPending ==> !has(cm.pending, inKey)
+//@   loop 0 step wasPending ==> has(removedCircuits, inKey)
+//@   loop 0 step wasPending ==> removedCircuits[inKey] == prevheap(cm.pending[inKey])
+//@   loop 0 step wasPending && circuit.Outgoing == nil ==> !has(cm.closed, inKey)
+//@   loop 0 step wasPending && circuit.Outgoing == nil ==> (prevheap(has(cm.closed, inKey)) ==> has(closingCircuits, inKey))
+//@   loop 0 step !wasPending ==> !has(cm.pending, inKey) && (has(cm.closed, inKey) <==> prevheap(has(cm.closed, inKey)))
+//@   site call removeCircuitFromHashIndex: assert arg(1) == circuit && !has(cm.pending, inKey) && !has(cm.closed, inKey) &&
+//@        !has(cm.opened, *circuit.Outgoing)
+//@   loop 1 step has(cm.pending, inKey) && cm.pending[inKey] == circuit
+//@   loop 1 step circuit.Outgoing == nil && has(closingCircuits, inKey) ==> has(cm.closed, inKey)
+//@   site call addCircuitToHashIndex nth 0: assert arg(1) == circuit && has(cm.opened, *circuit.Outgoing) &&
+//@        (has(closingCircuits, inKey) ==> has(cm.closed, inKey))
+//@   ensures result == nil ==> ret(Batch) == nil
+//@
+//@ func (cm *circuitMap) removeCircuitFromHashIndex
+//@   props C07
+//@   modifies mapof(cm.hashIndex), mapof(cm.hashIndex[c.PaymentHash])
+//@
+//@ func (cm *circuitMap) addCircuitToHashIndex
+//@   props C07
+//@   modifies mapof(cm.hashIndex), mapof(cm.hashIndex[c.PaymentHash])
